@@ -105,6 +105,18 @@ def body(rep, case, sub="grid"):
         for form, arg in forms:
             text = tools.pretty_next_run(start, arg)
             judge(text, token, start, mask, case, "C13" + ("/utc-weekday-differs" if utc_wd != weekday else ""))
+        if case.get("forms") and (start_min // 60 < 10 or start_min % 60 < 10):
+            # the same start time written without its leading zeros ("9:30", "17:5"): strptime-style parsing takes it.  Whether
+            # it is accepted is not stated (a refusal is counted, not judged); a text that IS returned must name the right day
+            loose = f"{start_min // 60}:{start_min % 60}" if mask % 32 == 6 else f"{start_min // 60}:{start_min % 60:02d}"
+            try:
+                text = tools.pretty_next_run(loose, days)
+            except (ValueError, TypeError):
+                rep.label("unpadded-start-refused")
+            else:
+                rep.label("unpadded-start-answered")
+                judge(text, token, loose if isinstance(text, str) and loose in text else start, mask, dict(case, start_text=loose),
+                      "C13/unpadded-start")
         if not mask:
             judge(tools.pretty_next_run(start), token, start, mask, case, "C13/default-days")
         if case.get("via_schedule"):
